@@ -19,3 +19,26 @@ Theorem C02_checker_exactly_once :
                 NoDup out /\ (forall p, In p out <-> member p = true).
 Proof. exact check_enum_exactly_once. Qed.
 Print Assumptions C02_checker_exactly_once.
+
+(** Algorithmic core shared by bee, beap and constant-delay search: the
+    frontier expansion "increment index i, stop after the first index that
+    exceeds 1".  Every non-zero index tuple has exactly one parent, a popped
+    combination never pushes a successor twice, and breadth-first expansion
+    from the all-zero tuple lists every tuple exactly once. *)
+From PS Require Import Enum.Frontier Enum.FrontierProofs.
+
+Theorem C02_frontier_unique_parent : forall c c', In c' (children c) <-> parent c' = Some c.
+Proof. intros c c'; split; [apply children_parent|apply parent_children]. Qed.
+Print Assumptions C02_frontier_unique_parent.
+
+Theorem C02_frontier_no_duplicate_push : forall c, NoDup (children c).
+Proof. exact children_nodup. Qed.
+Print Assumptions C02_frontier_no_duplicate_push.
+
+Theorem C02_frontier_generates_all : forall k n c, In c (level k n) <-> length c = k /\ tsum c = n.
+Proof. exact level_complete. Qed.
+Print Assumptions C02_frontier_generates_all.
+
+Theorem C02_frontier_no_duplicates : forall k n, NoDup (level k n).
+Proof. exact level_nodup. Qed.
+Print Assumptions C02_frontier_no_duplicates.
